@@ -76,7 +76,7 @@ CHECKS = {
         "interval and the rows built in Interpolate/AddBCToFitMatrix are exactly the C1 conditions (so the first derivative is "
         "continuous on any non-uniform grid); natural/periodic boundary rows; Akima pieces match values and slopes; grids end at max; "
         "smoothing keeps end points and straight lines; csg_resample derives value and derivative from one spline on the same grid."
-        + "Also: csg_resample's search for the input point matching an output point treats abscissae that agree up to rounding as the same point, also at x = 0 (representatives), and neighbouring grid points as different. ",
+        + "Also: csg_resample's search for the input point matching an output point treats abscissae that agree up to rounding as the same point, also at x = 0 (representatives), and neighbouring grid points as different. The Table writer's number format keeps significant digits (shared with C08). ",
    note="Not decided: least-squares optimality of Fit, numerical conditioning of the QR solves, behaviour on data. Trusted: clang "
         "front end, sympy polynomial arithmetic."),
  "C08": dict(cat="other", ref="DESIGN.md section 4 C08",
@@ -85,7 +85,8 @@ CHECKS = {
         "symbolically and must agree: same quantity and component per column/offset, box elements mapped to the same matrix "
         "entries (all nine on every path for gro, cell vectors as columns for DLPOLY), unit factors multiplying to one. "
         "Every reader's atom-count comparison must reach a real throw. Table columns/flag token, IMC matrix layout (row-major "
-        "type fact) and the index-file grammar are paired the same way; every writable extension has a reader.",
+        "type fact) and the index-file grammar are paired the same way; every writable extension has a reader. "
+        + 'Also: the Table writer prints significant digits (no fixed notation, precision >= 6), so small ordinates survive the round trip. ',
    note="Necessary structural conditions of the round trip, decided for all configurations because they are facts about the "
         "code's field tables. Not decided: printed precision versus tolerance, bead names/types, multi-frame ordering, xml "
         "topology reader. Known findings (listed, exit 0): Table error column not restored; PDB writer emits no CRYST1."),
@@ -96,7 +97,8 @@ CHECKS = {
         "each tested distance is the minimum-image distance of two distinct beads of the tuple (strict <) and the stored vectors "
         "are those vectors in creator order; grid searches test a bead before inserting it; self tuples are skipped; cells per "
         "direction come from the box heights, neighbour offsets shrink correctly for small grids, pair and 3-body grid agree; "
-        "every cell index is proved within [0,N-1].",
+        "every cell index is proved within [0,N-1]. "
+        + 'Also: ExclusionList::IsExcluded answers by membership in the whole partner list of the bead with the smaller id (std::find or a scan without early exit that misses later partners). ',
    note="Not decided (needs execution/geometry): completeness of the cell scan for all cell counts and triclinic shapes, "
         "exactly-once delivery across cells, construction of exclusions from bonded interactions."),
  "C04": dict(cat="proof", ref="DESIGN.md section 4 C04",
@@ -126,7 +128,8 @@ CHECKS = {
         "leaves a block by exactly the complementary sign-aware test (so every accepted expression terminates and descending ranges are "
         "enumerated); the printer's forms b, b:e, b:s:e and the ',' separator are what the parser's token roles read back; index "
         "vectors/strings are normalised through an ordered set in both directions with inclusive ranges; bead selection uses "
-        "wildcmp(pattern, name|type) according to the 'name:' prefix.",
+        "wildcmp(pattern, name|type) according to the 'name:' prefix. "
+        + 'Also: the std::string overload of wildcmp only delegates to the character matcher (length shortcuts decided over star/non-star counts); RangeParser iterator equality is (same block and same current value) and != its negation, so a range containing the end marker value -1 is enumerated completely. ',
    note="Not decided: that tools::wildcmp implements glob semantics for all pattern/string pairs (a back-tracking matcher; would need "
         "exhaustive comparison with a reference matcher - not static analysis), std::stoi's rejection of malformed numbers."),
  "C11": dict(cat="other", ref="DESIGN.md section 4 C11",
@@ -155,7 +158,7 @@ CHECKS = {
         "checkConvergence returned true; that predicate is 'all requested residual norms < tol_'; every run of solve assigns the status "
         "before it can return, so a reused solver cannot report a stale Success; unconverged roots are zeroed and reported as "
         "NoConvergence; accepted option literals equal the shipped choices."
-        + 'Also decides two necessary conditions of the convergence clauses: extendProjection builds one correction for every unconverged tracked root (all tracked roots visited, consecutive new columns, resize by the unconverged count), and the cached product AV stays A*V (Ritz vectors q = V U, residues AV U - q diag(lambda), appended columns A*V_new, restart transforms AV and the retained vectors by the same matrix). ',
+        + 'Also decides two necessary conditions of the convergence clauses: extendProjection builds one correction for every unconverged tracked root (all tracked roots visited, consecutive new columns, resize by the unconverged count), and the cached product AV stays A*V (Ritz vectors q = V U, residues AV U - q diag(lambda), appended columns A*V_new, restart transforms AV and the retained vectors by the same matrix); non-finite correction vectors are filtered (decided by cases finite/NaN/Inf, also through a helper); the operator diagonal used by the correction is fetched from the operator of this solve() unconditionally before it is read. ',
    note="NOT decided - and this is most of the property: returned values being the lowest eigenvalues, orthonormality, residual "
         "bounds, convergence for diagonally dominant matrices, the Hamiltonian mode. Those are numerical and outside static analysis. "
         "xtp is not built here; units parsed with synthesised flags."),
@@ -165,7 +168,8 @@ CHECKS = {
         "for equal reorganisation energies, is linear in J^2 and positive; Rate() feeds +dG/-dG with the same coupling, the charge "
         "table and the q R.F term, and the reverse event uses -R; the escape rate is the sum of event rates from zero; the waiting "
         "time is -ln(u)/k. For the selection tree only necessary structural conditions are decided (both leaves set on last-level nodes, "
-        "one orientation used throughout).",
+        "one orientation used throughout). "
+        + 'Also: QMPair persistence keeps the per-carrier tables - the record field WriteData fills from lambda0_/Jeff2_.getValue(X) is the field ReadData hands to setValue(., X), for all four carrier kinds. ',
    note="NOT decided: that the lookup thresholds partition [0,1] in proportion to the rates (dynamics of the priority-queue "
         "construction), uniformity of the random numbers, the physical sign convention of the field term (the code's dG = (E1-E2) + q R.F "
         "is taken as the definition). xtp is parsed, not built."),
@@ -184,8 +188,8 @@ CHECKS = {
         "sweeps alike), dist_boltzmann_invert.pl (-kT ln(P/norm), norm table), table_linearop.pl, potential_shift.pl (shift value: last point "
         "or minimum over flagged points with a defined()-test), table_smooth.pl (stencils, flag guard, unflagged points kept) and "
         "table_integrate.pl (trapezoid recurrences from either end), and that each script writes the grid and flag arrays it read."
-        + 'Also: table_scale.pl (prefactor interpolated with weight 0 at the first and 1 at the last point) and table_extrapolate.pl (every extrapolation function continues value and slope at the anchor; sweeps leftwards from the first and rightwards from the last flagged point). ',
-   note="Not decided: shell wrappers (csg_table, csg_call), table_combine/table_scale/table_extrapolate, csg_resample-based differentiation and "
+        + 'Also: table_scale.pl (prefactor interpolated with weight 0 at the first and 1 at the last point) and table_extrapolate.pl (every extrapolation function continues value and slope at the anchor; sweeps leftwards from the first and rightwards from the last flagged point); each IBI sweep starts without a carried value from another index range (a foreach over several ranges is split into its sweeps). ',
+   note="Not decided: shell wrappers (csg_table, csg_call), table_combine, csg_resample-based differentiation and "
         "its inverse relation to integration (numerical), CsgFunctions.pm's parsing loops. No script is executed; perl only compiles them."),
  "C16": dict(cat="other", ref="DESIGN.md section 4 C16 and section 9.6",
    technique="dominance analysis over the clang CFG (the sort of the id source dominates the concatenation loop, which iterates the sorted sequence) + symbolic folding of the distance visitor, the generic visitor step, the breadth-first queue and singleNetwork with their effects decided by truth tables over the conditions they test; node-content table of BeadInfoToGraphNode_",
@@ -205,8 +209,8 @@ CHECKS = {
    text="THIN partial claim: decides only the last clause of the property - the damped dipole-dipole interaction tensor is -3 l5 a a^T + l3 I "
         "over the unit vector, hence symmetric; in the undamped branch l3 = l5 = R^-3 and the tensor is traceless; the damping factors "
         "are (1-e^-u) and (1-(1+u)e^-u) so the tensor tends to the undamped one at large separation - and that the monopole entry is q/R."
-        + 'Also: callers that contract VSiteA<N>(A,B) with Q(A) use N = 9 whenever rank(A) = 2, over all nine rank pairs; the charge-charge entry starts as q_B/|posB - posA|. ',
-   note="NOT decided (the bulk): exchange symmetry of the pair energy, translation/rotation invariance, the rank-1/2 interaction blocks, the "
+        + 'Also: callers that contract VSiteA<N>(A,B) with Q(A) use N = 9 whenever rank(A) = 2, over all nine rank pairs; the charge-charge entry starts as q_B/|posB - posA|; StaticSite::Rotate maps the position to ref + R (pos - ref), rotates the dipole iff rank >= 1 and the quadrupole as R C R^T iff rank >= 2 (necessary for rotation invariance); size selection by rank pairs. ',
+   note="NOT decided (the bulk): exchange symmetry of the pair energy, invariance of the energy itself under translation/rotation, the rank-1/2 interaction blocks, the "
         "point-charge-cluster limit, the field/energy derivative relation. These need path-sensitive evaluation of the if-constexpr/rank "
         "branches of VSiteA<N> or execution - outside this family. xtp is parsed, not built."),
 }
